@@ -8,7 +8,7 @@ from sim.seams import Env
 PROPERTY = "C23"
 LEVEL = "exploration"
 SCENARIOS = {"start-stop": 3, "churn": 2, "crash": 1}
-TIERS = {"quick": {"runs": 2700, "chunk": 8}, "thorough": {"runs": 90000, "chunk": 40}}
+TIERS = {"quick": {"runs": 2700, "chunk": 8}, "thorough": {"runs": 50000000, "wall_s": 600, "chunk": 40, "recheck": 16}}
 RULE = ("one run = 2-3 simulated OS processes (baton-passing threads) each doing `async with "
         "ParallelEtherCat(...).run(): take 1-8 FMMU windows; stay a drawn time` (in 'churn' "
         "several times in a row), with drawn start times, pre-emption before every file "
